@@ -11,9 +11,18 @@ Lemma sigtype_agree :
   G.HMAC_WITH_SHA256 = SIG_HMAC /\ G.ED25519 = SIG_ED25519.
 Proof. repeat split; reflexivity. Qed.
 
-(* the if/elif chain of _verify_sig, branch by branch (HMAC result dropped, Ed25519 present, else False) *)
-Lemma verify_sig_branches_agree : G.verify_sig_branches = sig_branches.
-Proof. reflexivity. Qed.
+(* the if/elif chain of _verify_sig computes the model's dispatch (HMAC result dropped, RSA / ECDSA / Ed25519
+   returned, anything else False) — stated semantically, so that reordering the branches is not a change *)
+Lemma verify_sig_branches_agree w ty k p :
+  dispatch G.verify_sig_branches w ty k p = dispatch sig_branches w ty k p.
+Proof.
+  unfold G.verify_sig_branches, sig_branches, G.SIG_HMAC, G.SIG_RSA, G.SIG_ECDSA, G.SIG_ED25519,
+    G.HMAC_WITH_SHA256, G.SHA256_WITH_RSA, G.SHA256_WITH_ECDSA, G.ED25519, SIG_HMAC, SIG_RSA, SIG_ECDSA, SIG_ED25519.
+  cbn [dispatch].
+  repeat match goal with
+         | |- context [N.eqb ?a ?b] => destruct (N.eqb_spec a b); subst
+         end; try reflexivity; try discriminate; try lia.
+Qed.
 
 (* the default `storage` argument is NOT an object created once at definition time: the model's
    [legacy = false] allocation (a fresh storage per instance) is the code's behaviour *)
@@ -30,10 +39,10 @@ Lemma fetch_shape :
   G.catches_nothing_else = true.
 Proof. repeat split; reflexivity. Qed.
 
-(* consequence used by the theorems: with the generated table the dispatch is the model's *)
+(* consequence: with the generated table the dispatch is the model's *)
 Lemma verify_sig_generated w k p :
   verify_sig w k p = match p_sig p with
                      | None => Err EAttr
                      | Some si => dispatch G.verify_sig_branches w (s_type si) k p
                      end.
-Proof. unfold verify_sig. rewrite verify_sig_branches_agree. reflexivity. Qed.
+Proof. unfold verify_sig. destruct (p_sig p); [symmetry; apply verify_sig_branches_agree | reflexivity]. Qed.
